@@ -202,7 +202,9 @@ def _replay_function(qual, inputs, registry=None):
                     if cl['kind'] == 'ensures' and concrete_bool(cl['cond']) is False:
                         failed.append('post:%s is false' % cl['label'])
             except Exception as ex:
-                failed.append('post: clauses not evaluable on this result (%s)' % str(ex)[:120])
+                # the contract cannot be evaluated concretely on this result: inconclusive, never a failure
+                return dict(confirmed=bool(failed) and pre_ok, pre_ok=pre_ok, outcome=repr(outcome)[:400], failed=failed,
+                            detail='post clauses not evaluable natively on this result (%s)' % str(ex)[:120])
     return dict(confirmed=bool(failed) and pre_ok, pre_ok=pre_ok, outcome=repr(outcome)[:400], failed=failed, detail='')
 
 
